@@ -39,7 +39,7 @@ Proof. exact refuse_new_full. Qed.
 Print Assumptions c17_refuse_new.
 
 (** ... while an admin client is admitted and its commands are answered, in any live state. *)
-Theorem c17_admin_admitted : forall st m st1, exited st = None -> wedged st = false ->
+Theorem c17_admin_admitted : forall st m st1, exited st = None -> main_ok st = true ->
   step st (Accept Admin m) = Some st1 ->
   let i := length (clients st) in
   exists st2, step st1 (AuthDone i true) = Some st2 /\ log st2 = OAdmitted i :: log st1 /\
@@ -103,8 +103,9 @@ Theorem c17_exit_condition : forall tz cap tr st x, run (init tz cap) tr = Some 
 Proof. exact exit_condition. Qed.
 Print Assumptions c17_exit_condition.
 
-(** "if", part 1: SIGTERM exits at once, whatever the clients are doing. *)
-Theorem c17_sigterm_immediate : forall st, exited st = None -> wedged st = false ->
+(** "if", part 1: SIGTERM exits at once, whatever the clients are doing ([main_ok]: the loop is at its
+    [select!], i.e. not wedged and not in the middle of the SIGINT arm — the arm ends by itself, SigintQ). *)
+Theorem c17_sigterm_immediate : forall st, exited st = None -> main_ok st = true ->
   step st Sigterm = Some (with_exit st ByTerm).
 Proof. exact sigterm_immediate. Qed.
 Print Assumptions c17_sigterm_immediate.
@@ -116,14 +117,14 @@ Theorem c17_zero_sends_exit : forall st st', step st DrainDeliver = Some st' -> 
 Proof. exact zero_observed_sends. Qed.
 Print Assumptions c17_zero_sends_exit.
 
-Theorem c17_exit_message_exits : forall st x, exited st = None -> wedged st = false -> exit_q st = Some x ->
+Theorem c17_exit_message_exits : forall st x, exited st = None -> main_ok st = true -> exit_q st = Some x ->
   step st ExitDeliver = Some (with_exit st x).
 Proof. exact exit_deliver_enabled. Qed.
 Print Assumptions c17_exit_message_exits.
 
 (** "if", part 3: once all counted clients have left and none died in a panic, delivering what is
     in flight gives the exit — unless the loop wedges on the way (see below). *)
-Theorem c17_exit_when_all_left : forall st, reachable st -> exited st = None -> wedged st = false ->
+Theorem c17_exit_when_all_left : forall st, reachable st -> exited st = None -> main_ok st = true ->
   admin_only st = true -> ncounted (clients st) = 0 -> leaked st = 0 ->
   exists k st', (k <= length (queue st))%nat /\ run st (repeat DrainDeliver k) = Some st' /\
                 (wedged st' = true \/
@@ -133,7 +134,7 @@ Print Assumptions c17_exit_when_all_left.
 
 (** "if", part 4: shutdown_timeout.  In admin-only mode with a non-zero timeout and a main loop that
     is not wedged, the timer ends the process whatever the clients do. *)
-Theorem c17_timer_forces_exit : forall st, reachable st -> exited st = None -> wedged st = false ->
+Theorem c17_timer_forces_exit : forall st, reachable st -> exited st = None -> main_ok st = true ->
   admin_only st = true -> tzero st = false ->
   exists tr st', (tr = [TimerFire; ExitDeliver] \/ tr = [ExitDeliver]) /\ run st tr = Some st' /\
                  exists x, exited st' = Some x /\ x <> ByTerm.
@@ -141,7 +142,7 @@ Proof. exact r_timer_forces_exit. Qed.
 Print Assumptions c17_timer_forces_exit.
 
 (** A second SIGINT changes nothing. *)
-Theorem c17_double_sigint_ignored : forall st, exited st = None -> wedged st = false -> admin_only st = true ->
+Theorem c17_double_sigint_ignored : forall st, exited st = None -> main_ok st = true -> admin_only st = true ->
   step st Sigint = Some st.
 Proof. exact double_sigint_ignored. Qed.
 Print Assumptions c17_double_sigint_ignored.
@@ -172,12 +173,14 @@ Print Assumptions c17_wedge_is_forever.
 
 Theorem c17_wedge_origin : forall st e st', step st e = Some st' -> wedged st = false -> wedged st' = true ->
   (e = DrainDeliver /\ exit_q st <> None /\ total st' = 0 /\ admin_only st = true) \/
-  (e = Sigint /\ admin_only st = false /\ (qcap st <= length (queue st))%nat).
+  (e = SigintQ /\ mid_sigint st = true /\ (qcap st <= length (queue st))%nat).
 Proof. exact wedge_origin. Qed.
 Print Assumptions c17_wedge_origin.
 
-(** "exits once all clients have left or shutdown_timeout has passed" is FALSE on these schedules:
-    every client has left AND the timeout has passed, and no continuation whatsoever exits. *)
+(** "exits once all clients have left or shutdown_timeout has passed" is FALSE on the schedules
+    [wedge_overtake] (one idle client, SIGINT: its -1 overtakes the 0 of the SIGINT arm), [wedge_inflight]
+    and [wedge_cancel] (Proofs.v): every client has left AND the timeout has passed, and no continuation
+    whatsoever exits.  The witness below is [wedge_overtake]. *)
 Theorem c17_exit_liveness_refuted : exists tr st, run (init false 2048) tr = Some st /\
   all_gone st = true /\ tmr st = TBlocked /\ total st = 0 /\ queue st = [] /\
   forall tr' st', run st tr' = Some st' -> exited st' = None.
@@ -200,7 +203,7 @@ Proof. exact known_wedge_refuted. Qed.
 Print Assumptions c17_known_wedge_inhabited.
 
 Theorem c17_exit_liveness_guarded : forall tz cap tr st, run (init tz cap) tr = Some st -> known_wedge tz cap tr = false ->
-  exited st = None -> admin_only st = true -> tzero st = false ->
+  mid_sigint st = false -> exited st = None -> admin_only st = true -> tzero st = false ->
   exists tr' st', run st tr' = Some st' /\ exists x, exited st' = Some x /\ x <> ByTerm.
 Proof. exact exit_liveness_guarded. Qed.
 Print Assumptions c17_exit_liveness_guarded.
@@ -266,15 +269,15 @@ Proof. vm_compute. reflexivity. Qed.
 (** accepted before SIGINT, authenticated after it: admitted (gate = false), then kicked at its
     first poll — or, if its first message won the race, served for that one transaction *)
 Example ex_late_auth :
-  final_script false [SEv (Accept Normal TxnMode); SEv (Accept Admin TxnMode); SEv (AuthDone 1 true); SRaw Sigint;
+  final_script false [SEv (Accept Normal TxnMode); SEv (Accept Admin TxnMode); SEv (AuthDone 1 true); SRaw Sigint; SRaw SigintQ;
                       SRaw DrainDeliver; SRaw ExitDeliver]
   = Some (true, 0, Some ByZero, false, [(Starting, false); (Idle, false)], [OAdmitted 1; OExit ByZero], 0)
   /\
-  final_script false [SEv (Accept Normal TxnMode); SEv (Accept Admin TxnMode); SEv (AuthDone 1 true); SRaw Sigint;
+  final_script false [SEv (Accept Normal TxnMode); SEv (Accept Admin TxnMode); SEv (AuthDone 1 true); SRaw Sigint; SRaw SigintQ;
                       SRaw (AuthDone 0 true); SRaw (Poll 0)]
   = Some (true, 0, None, false, [(Gone, false); (Idle, false)], [OAdmitted 1; OAdmitted 0; OKicked 0], 0)
   /\
-  final_script false [SEv (Accept Normal TxnMode); SRaw Sigint; SRaw (AuthDone 0 true); SRaw (TxnStart 0);
+  final_script false [SEv (Accept Normal TxnMode); SRaw Sigint; SRaw SigintQ; SRaw (AuthDone 0 true); SRaw (TxnStart 0);
                       SRaw (Stmt 0); SRaw (TxnEnd 0); SRaw (Poll 0)]
   = Some (true, 0, None, false, [(Gone, false)], [OAdmitted 0; OServed 0; OServed 0; OKicked 0], 0).
 Proof. vm_compute. repeat split; reflexivity. Qed.
@@ -282,29 +285,35 @@ Proof. vm_compute. repeat split; reflexivity. Qed.
 (** lag: the +1 and -1 of a client are delivered after it left and after SIGINT was handled (the
     same queue, with the 0 delivered before the exit arm runs, is wedge schedule W1) *)
 Example ex_lag :
-  final false [Accept Normal TxnMode; AuthDone 0 true; Leave 0 Clean; Sigint; DrainDeliver; DrainDeliver; ExitDeliver]
+  final false [Accept Normal TxnMode; AuthDone 0 true; Leave 0 Clean; Sigint; SigintQ; DrainDeliver; DrainDeliver; ExitDeliver]
   = Some (true, 0, Some ByZero, false, [(Gone, false)], [OAdmitted 0; OLeft 0 Clean; OExit ByZero], 0)
   /\
-  final false [Accept Normal TxnMode; AuthDone 0 true; Leave 0 Clean; Sigint; DrainDeliver; DrainDeliver; DrainDeliver]
+  final false [Accept Normal TxnMode; AuthDone 0 true; Leave 0 Clean; Sigint; SigintQ; DrainDeliver; DrainDeliver; DrainDeliver]
   = Some (true, 0, None, true, [(Gone, false)], [OAdmitted 0; OLeft 0 Clean], 0).
 Proof. vm_compute. split; reflexivity. Qed.
 
-(** the two wedge schedules; with the exit arm polled in between, the same events exit normally *)
+(** the wedge schedules; with the exit arm polled in between, the same events exit normally; the
+    adversarial script order ([SAdv]) of the plain "one idle client, SIGINT" script is W1' *)
 Example ex_wedge :
+  final false wedge_overtake = Some (true, 0, None, true, [(Gone, false)], [OAdmitted 0; OKicked 0], 0) /\
+  final_script false [SEv (Accept Normal TxnMode); SEv (AuthDone 0 true); SAdv Sigint]
+    = Some (true, 0, None, true, [(Gone, false)], [OAdmitted 0; OKicked 0], 0) /\
+  final_script false [SEv (Accept Normal TxnMode); SEv (AuthDone 0 true); SEv Sigint]
+    = Some (true, 0, Some ByZero, false, [(Gone, false)], [OAdmitted 0; OKicked 0; OExit ByZero], 0) /\
   final false wedge_inflight = Some (true, 0, None, true, [(Gone, false)], [OAdmitted 0; OLeft 0 Clean], 0) /\
   final false wedge_cancel = Some (true, 0, None, true, [(Gone, false)], [OLeft 0 Clean], 0) /\
-  final false [Accept Normal TxnMode; AuthDone 0 true; DrainDeliver; Leave 0 Clean; Sigint; DrainDeliver; ExitDeliver]
+  final false [Accept Normal TxnMode; AuthDone 0 true; DrainDeliver; Leave 0 Clean; Sigint; SigintQ; DrainDeliver; ExitDeliver]
   = Some (true, 0, Some ByZero, false, [(Gone, false)], [OAdmitted 0; OLeft 0 Clean; OExit ByZero], 0).
 Proof. vm_compute. repeat split; reflexivity. Qed.
 
 (** W3 on a 4-slot channel: two cancel requests not yet received, then SIGINT *)
 Example ex_wedge_full :
   option_map view (run (init false 4) [Accept Canc TxnMode; AuthDone 0 true; Leave 0 Clean;
-                                       Accept Canc TxnMode; AuthDone 1 true; Leave 1 Clean; Sigint])
+                                       Accept Canc TxnMode; AuthDone 1 true; Leave 1 Clean; Sigint; SigintQ])
   = Some (true, 0, None, true, [(Gone, false); (Gone, false)], [OLeft 0 Clean; OLeft 1 Clean], 0)
   /\
   option_map view (run (init false 5) [Accept Canc TxnMode; AuthDone 0 true; Leave 0 Clean;
-                                       Accept Canc TxnMode; AuthDone 1 true; Leave 1 Clean; Sigint])
+                                       Accept Canc TxnMode; AuthDone 1 true; Leave 1 Clean; Sigint; SigintQ])
   = Some (true, 0, None, false, [(Gone, false); (Gone, false)], [OLeft 0 Clean; OLeft 1 Clean], 0).
 Proof. vm_compute. split; reflexivity. Qed.
 
@@ -317,5 +326,6 @@ Proof. vm_compute. reflexivity. Qed.
 (** events that are not enabled are rejected *)
 Example ex_not_enabled :
   (final false [Poll 0], final false [TimerFire], final false [DrainDeliver], final false [ExitDeliver],
-   final false [Accept Normal TxnMode; TxnStart 0], final false [Sigterm; Sigint]) = (None, None, None, None, None, None).
+   final false [Accept Normal TxnMode; TxnStart 0], final false [Sigterm; Sigint], final false [SigintQ],
+   final false [Sigint; Sigterm]) = (None, None, None, None, None, None, None, None).
 Proof. vm_compute. reflexivity. Qed.
